@@ -1,6 +1,7 @@
 (* Executable entry points for the C19 correspondence shards. *)
 From Coq Require Import List NArith Bool.
 From AdltV Require Import Base.Obs Base.Res Base.MachInt Plugins.Chain Plugins.Anon.
+From AdltV Require Lifecycle.Model.
 Import ListNotations.
 Open Scope N_scope.
 
@@ -125,13 +126,53 @@ Definition pop_msg (necu napid nctid k : N) : msg :=
 Definition pop_stream (necu napid nctid n : N) : list msg :=
   map (fun i => pop_msg necu napid nctid (N.of_nat i)) (seq 0 (N.to_nat n)).
 
+(* ---------------------------------------------------------------- lifecycle detection (model of Lifecycle/Model.v) *)
+(* (index, ecu, reception time us, timestamp_dms, has_timestamp, is_ctrl_request) — Plugins/AnonLc.v lc_view *)
+Definition lc_spec := (N * N * N * N * bool * bool)%type.
+Definition mk_lc_msg (s : lc_spec) : Model.msg :=
+  let '(i, e, rt, ts, h, c) := s in
+  {| Model.m_index := i; Model.m_ecu := e; Model.m_rt := rt; Model.m_ts := ts * 100; Model.m_has_ts := h;
+     Model.m_creq := c; Model.m_lc := 0 |}.
+
+Fixpoint ins_dedupe (x : N) (l : list N) : list N :=
+  match l with
+  | [] => [x]
+  | y :: r => if x <? y then x :: l else if x =? y then l else y :: ins_dedupe x r
+  end.
+(* lifecycle ids come from a global counter: compared by rank among the ids of the run *)
+Definition rank_of (ids : list N) (x : N) : N := N.of_nat (length (filter (fun y => y <? x) ids)).
+Fixpoint ins_row (x : N * Model.lcy) (l : list (N * Model.lcy)) : list (N * Model.lcy) :=
+  match l with
+  | [] => [x]
+  | y :: r => if fst x <=? fst y then x :: l else y :: ins_row x r
+  end.
+
+(* [with_ecu = false] erases the ECU label: what must coincide between original and anonymised stream *)
+Definition o_detect (with_ecu : bool) (ms : list lc_spec) : otree :=
+  let '(dl, t) := Model.detect 1 [] (map mk_lc_msg ms) in
+  let ids := fold_right ins_dedupe [] (map (fun x => Model.m_lc (fst x)) dl ++ map fst t) in
+  T [L 0;
+     T (map (fun x => T [L (Model.m_index (fst x)); L (rank_of ids (Model.m_lc (fst x)))]) dl);
+     T (map (fun kv => let lc := snd kv in
+                       T [L (rank_of ids (fst kv)); L (if with_ecu then Model.l_ecu lc else 0); L (Model.l_nr lc);
+                          L (Model.l_start lc); L (if Model.l_nr lc =? 0 then 0 else Model.end_time lc);
+                          ob (Model.is_resume lc)])
+             (fold_right ins_row [] t))].
+
+Definition erase_ecu (o : otree) : otree :=
+  match o with
+  | T [st; dl; T rows] =>
+      T [st; dl; T (map (fun r => match r with T [i; e; n; s; en; rs] => T [i; L 0; n; s; en; rs] | _ => r end) rows)]
+  | _ => o
+  end.
+
 (* ---------------------------------------------------------------- cases *)
 Inductive case_C19 :=
 | CLoop (scripts : list (N * list action)) (cap : option N) (ms : list msg)
 | CAnon (ms : list msg)
 | CAnonPop (necu napid nctid n : N)
 | CFrame (allow_ts : bool) (ins : list (msg * bool))
-| CEquiv.
+| CEquiv (orig anon : list lc_spec).
 
 Definition o_loop (r : option msg * list plugin * list msg) : otree :=
   match r with
@@ -162,7 +203,7 @@ Definition run_C19 (c : case_C19) : otree :=
   | CAnon ms => o_anon (anon_run true anon_init ms)
   | CAnonPop necu napid nctid n => o_anon_ids (anon_run true anon_init (pop_stream necu napid nctid n))
   | CFrame _ _ => T []
-  | CEquiv => T []
+  | CEquiv a b => T [o_detect true a; o_detect true b]
   end.
 
 Definition agree_C19 (c : case_C19) (o : otree) : bool :=
@@ -173,10 +214,17 @@ Definition agree_C19 (c : case_C19) (o : otree) : bool :=
       | T [L 0; T outs] => match msgs_of outs with Some os => framed_run allow_ts ins os | None => false end
       | _ => false
       end
-  | CEquiv =>
-      (* lifecycle detection on the original and on the anonymised stream: the canonical tables coincide *)
+  | CEquiv sa sb =>
+      (* the real lifecycle detection on the original and on the anonymised stream: each run is the run of the
+         detector model on what the detector reads of the stream (a panic of the real detector — C03's subject —
+         is accepted when it happens on both), and the two results coincide up to the ECU labels *)
       match o with
-      | T [a; b] => otree_eqb a b
+      | T [a; b] =>
+          otree_eqb (erase_ecu a) (erase_ecu b) &&
+          match a with
+          | T [L 0; _; _] => otree_eqb a (o_detect true sa) && otree_eqb b (o_detect true sb)
+          | _ => true
+          end
       | _ => false
       end
   | _ => otree_eqb (run_C19 c) o
